@@ -88,11 +88,11 @@ CHECKS = {
 PENDING_REASON = "check not built yet in this session (planned: Lean model + proof + correspondence, see DESIGN.md work order); not claimed until its check exists"
 
 
-GEN = {"C01": "gen_monitor_shape, gen_run_outcome", "C04": "gen_source_text (pinned text of _partial.py)", "C18": "gen_source_text (pinned text of the YAML constructors)", "C02": "gen_runtime_text (pinned text of the closing code)", "C03": "gen_runtime_text (pinned text of registration and start)",
+GEN = {"C01": "gen_monitor_shape, gen_run_outcome, gen_runtime_text (pinned text of the failure path)", "C04": "gen_source_text (pinned text of _partial.py)", "C18": "gen_source_text (pinned text of the YAML constructors)", "C02": "gen_runtime_text (pinned text of the closing code)", "C03": "gen_runtime_text (pinned text of registration and start)",
        "C10": "gen_runtime_text (pinned text of the execute path)", "C11": "gen_runtime_text (pinned text of where payloads run)", "C05": "gen_pipeline_walk_shape", "C19": "gen_translator_keys", "C06": "gen_clamp_eq, gen_floor_eq, gen_clamp_demand_eq, gen_write_eq, gen_read_eq, gen_ok_iff, gen_forwarded_in_limits",
        "C07": "gen_shares_uniform, gen_shares_weighted, gen_supply, gen_init, gen_fitness_uniform, gen_fitness_weighted, gen_reads_stored, gen_conservation, gen_share_bounds",
        "C08": "gen_linear_eq, gen_relsupply_eq, gen_switch_select_eq, gen_get_rule_eq, gen_shapes", "C09": "gen_loop_shapes",
-       "C12": "gen_guard_shape", "C13": "gen_dispatch_eq, gen_daemon_start", "C14": "gen_dependencies_equiv, gen_order_respects, gen_order_exists, gen_digest_eq, gen_load_eq", "C15": "gen_adjust_eq, gen_shrink_pass_eq, gen_shrink_eq, gen_reap_eq, gen_grow_continues, gen_aggregates_eq", "C16": "gen_decorator_shapes", "C17": "gen_escape_key, gen_escape_name, gen_escape_field, gen_source_text (pinned text of the formatters)"}
+       "C12": "gen_guard_shape, gen_runtime_text (pinned text of the life cycle)", "C13": "gen_dispatch_eq, gen_daemon_start, gen_runtime_text (pinned text of accept / adopt / the loaders)", "C14": "gen_dependencies_equiv, gen_order_respects, gen_order_exists, gen_digest_eq, gen_load_eq", "C15": "gen_adjust_eq, gen_shrink_pass_eq, gen_shrink_eq, gen_reap_eq, gen_grow_continues, gen_aggregates_eq", "C16": "gen_decorator_shapes", "C17": "gen_escape_key, gen_escape_name, gen_escape_field, gen_source_text (pinned text of the formatters)"}
 
 
 def main():
